@@ -38,6 +38,15 @@ def step (line : String) : String :=
       return (match primGrid d ρ n topup with
         | some es => s!"{es.length} " ++ " ".intercalate (es.map showEnvF)
         | none => "none")
+    | "tripool" => do       -- candidates of Triangle.sample_grid before the first-n cut (barycentric pool mapped to points)
+      let ox ← floatFromRat; let oy ← floatFromRat; let ax ← floatFromRat; let ay ← floatFromRat
+      let bx ← floatFromRat; let cy ← floatFromRat
+      let n ← nat
+      let topup ← many (many floatFromRat)
+      let bs := triGridPoolBary n (norm2 (ax - ox) (ay - oy)) (norm2 (ox - bx) (oy - cy))
+        (topup.filterMap fun | [a, b] => some (a, b) | _ => none)
+      let ps := bs.map fun b => parSample ox oy ax ay bx cy b.1 b.2
+      return s!"{ps.length} " ++ " ".intercalate (ps.map fun p => s!"{showFloat p.1} {showFloat p.2}")
     | "gridcounts" => do   -- sizes of the barycentric mesh (Float) and the pre-floor values
       let n ← nat; let l1 ← floatFromRat; let l2 ← floatFromRat
       let c := parGridCounts n l1 l2
